@@ -107,13 +107,7 @@ func (g *fgen) rangeNode(f FField) *Ft {
 				t.Lo = Pick(r, decValsFine)
 				g.tag("range-float-round")
 			}
-			if openLo || openHi {
-				if g.odd {
-					g.tag("range-float-open")
-				} else {
-					openLo, openHi = false, false
-				}
-			}
+			// open float ranges are ordinary since fix F12 (toFloats compares with '*')
 		}
 	} else {
 		t.Lo, t.Hi = g.strVal(), g.strVal()
